@@ -121,6 +121,11 @@ func newTgen(rt *rapid.T, s model.Schema, o gen.AVOpts, poolSize int) *tgen {
 	for i := 0; i < nh; i++ {
 		hashes = append(hashes, drawKeyValue(rt, s.Attrs[s.Hash], o, "poolHash"))
 	}
+	if s.Attrs[s.Hash] == "S" && s.Range != "" && nh >= 2 && rapid.IntRange(0, 3).Draw(rt, "dottedHash") == 2 {
+		// a partition whose name extends another's by ".x": in a store that joins
+		// hash and sort key with "." the two partitions interleave
+		hashes[1] = model.Str(hashes[0].S + "." + rapid.SampledFrom([]string{"m", "eu", "b", "1"}).Draw(rt, "dottedHashSuffix"))
+	}
 	seen := map[string]bool{}
 	for i := 0; len(g.keys) < poolSize && i < poolSize*4; i++ {
 		k := model.Item{}
